@@ -519,3 +519,87 @@ SCENARIOS += [
     Scenario("C10.c_api.call_onnx_api", s_call_onnx_api, [("onnxscript/version_converter/_c_api_utils.py", "call_onnx_api")],
              kind="bounded", bound="at most 2 initializers, each small/large and already a graph input or not; the API call succeeds or raises"),
 ]
+
+
+# ------------------------------------------------------------------ adapter registry and process_node ---
+
+def s_adapter_registry(_ctx):
+    """AdapterRegistry on the real object: an adapter registered for (domain, operator, version, direction) is found under exactly that key and
+    under no other version / direction / operator; every SHIPPED adapter `<op>_<a>_<b>` is registered for the version a it adapts FROM (upwards,
+    b = a + 1), so that visit_node applies it exactly when a node at version a is taken to a + 1."""
+    import re
+    from contracts.c17_opsets import Agg
+    from onnxscript.version_converter import _version_converter as vc
+    agg = Agg()
+    CLV = "C10: 'every node ... is converted ... to the target opset' - the adapter of an operator is applied at the version step it was written for"
+    reg = vc.AdapterRegistry()
+
+    def f1(node, op):
+        return None
+
+    def f2(node, op):
+        return None
+    w1 = reg.register("Foo", node_version=7)(f1)
+    reg.register("Foo", node_version=9, up_conversion=False)(f2)
+    ok = (reg.lookup_adapters("", "Foo", 7, True) is f1 and reg.lookup_adapters("", "Foo", 9, False) is f2 and reg.lookup_adapters("", "Foo", 7, False) is None
+          and reg.lookup_adapters("", "Foo", 8, True) is None and reg.lookup_adapters("", "Bar", 7, True) is None and reg.lookup_adapters("x", "Foo", 7, True) is None
+          and reg.lookup_adapters("", "Foo", 7) is f1 and callable(w1))
+    agg.ob("C10.registry.an_adapter_is_found_under_exactly_the_key_it_was_registered_for", ok, "Foo@7 up, Foo@9 down", CLV)
+    n = 0
+    for (domain, op_type, version, up), fn in vc.registry.op_adapters.items():
+        n += 1
+        m = re.fullmatch(r"([a-z0-9]+)_(\d+)_(\d+)", fn.__name__)
+        okk = domain == "" and m is not None and m.group(1) == op_type.lower() and int(m.group(2)) == version and (int(m.group(3)) == version + 1) == bool(up)
+        agg.ob("C10.registry.each_shipped_adapter_is_registered_for_the_version_it_adapts_from", okk, f"{fn.__name__} registered for ({domain!r}, {op_type}, {version}, up={up})", CLV, case=fn.__name__)
+    agg.ob("C10.registry.adapters_present", n >= 1, f"{n} adapters", CLV)
+    return {"obligations": agg.obs, "paths": n + 1, "covered": [f"adapters={n}"], "notes": [], "functions": []}
+
+
+def s_process_node(ctx):
+    """_VersionConverter.process_node: the adapter looked up for (domain '', op_type, from_version, direction) is called once with the node and a
+    fresh tape builder; a single value or a sequence of values becomes the replacement outputs IN ORDER together with the nodes THAT builder
+    recorded; no adapter or an adapter that declines (None) means 'keep the node'."""
+    import onnx_ir as ir
+    from onnxscript.version_converter import _version_converter as vc
+    I = Interp(ctx)
+    has_adapter = ctx.choose(2, "an adapter is registered for this operator and version") == 0
+    answer = ["None", "one value", "two values"][ctx.choose(3, "the adapter returns")]
+    up = ctx.choose(2, "direction") == 0
+    v1, v2 = SObj(ir.Value, "new1"), SObj(ir.Value, "new2")
+    calls, lookups, tapes = [], [], []
+
+    def adapter(*a):
+        raise AssertionError
+    I.models[adapter] = lambda interp, node_, op_: (calls.append((node_, op_)) or {"None": None, "one value": v1, "two values": [v1, v2]}[answer])
+    I.models[vc.registry.lookup_adapters] = lambda interp, *a: (lookups.append(a) or (adapter if has_adapter else None))
+
+    def m_tape(interp, *a, **k):
+        t = SObj(vc.TapeBuilder, "tape")
+        t.fields["nodes"] = ["recorded nodes", len(tapes)]
+        tapes.append(t)
+        return t
+    I.models[vc.TapeBuilder] = m_tape
+    made = []
+    I.models[vc.Replacement] = lambda interp, outs, nodes: (made.append((outs, nodes)) or ("replacement", len(made)))
+    node = SObj(ir.Node, "node")
+    node.fields.update(domain="", op_type="DFT")
+    conv = SObj(vc._VersionConverter, "converter")
+    r = I.call(I.getattr(conv, "process_node"), [node, 19, up])
+    CLV = "C10: each node is 'converted to the target opset' by the adapter written for that operator and version step, or kept"
+    ctx.check("C10.process_node.adapter_looked_up_for_this_operator_version_and_direction", lookups == [("", "DFT", 19, up)], CLV)
+    if not has_adapter or answer == "None":
+        ctx.check("C10.process_node.node_kept_without_an_adapter_or_when_it_declines", r is None and not made and (len(calls) == (1 if has_adapter else 0)), CLV)
+        return
+    ok = r == ("replacement", 1) and len(calls) == 1 and calls[0][0] is node and len(tapes) == 1 and calls[0][1] is tapes[0]
+    ctx.check("C10.process_node.adapter_called_once_with_the_node_and_a_fresh_builder", ok, CLV)
+    if ok:
+        outs, nodes = made[0]
+        want = [v1] if answer == "one value" else [v1, v2]
+        ctx.check("C10.process_node.replacement_holds_the_outputs_in_order_and_the_nodes_the_builder_recorded",
+                  list(outs) == want and all(a is b for a, b in zip(outs, want)) and nodes is tapes[0].fields["nodes"], CLV)
+
+
+SCENARIOS += [
+    Scenario("C10.adapter_registry", s_adapter_registry, [(REL, "AdapterRegistry.register"), (REL, "AdapterRegistry.lookup_adapters"), (REL, "AdapterRegistry.register.decorator")], kind="evaluation"),
+    Scenario("C10.process_node", s_process_node, [(REL, "_VersionConverter.process_node")], kind="bounded", bound="adapter present or not; three kinds of answers; both directions"),
+]
